@@ -36,6 +36,10 @@ def gen_axis(rnd, n, force_units=None):
         e = prefix_exp(tunit, base) - prefix_exp(dunit, base)
         s = F(10) ** e
     g = max(s, F(1))
+    if dunit is None and rnd.random() < 0.3:
+        # a unit-less axis on a very fine scale (steps of 2^-30 ~ 1e-9, exact in binary): extents and positions are tiny
+        # numbers, far below any absolute tolerance, and still have to be taken for what they are
+        g = g * F(1, 2 ** 30)
     if kind == "sampled":
         if s == 1 and rnd.random() < 0.3:
             # decimal intervals: the stored float is not the decimal; the exact value of the float is what the model gets
@@ -376,7 +380,8 @@ def run(ctx):
         kinds[key] = kinds.get(key, 0) + 1
     ctx.coverage.update({
         "evaluations": len(cases), "distinct_nontrivial": len(set(repr(to_impl(c)) for c in cases)),
-        "rule": "arrays of rank 1-3 (1-5 samples per axis) holding their own offsets, every mix of sampled (offsets, fractional "
+        "rule": "arrays of rank 1-3 (1-5 samples per axis) holding their own offsets, unit-less axes also on a 2^-30 scale (tiny "
+                "positions and extents), every mix of sampled (offsets, fractional "
                 "intervals) / range (irregular ticks) / set descriptors; regions starting on, between, before, after the stored "
                 "samples, with no / zero / on-sample / fractional / far-too-large / negative extents; positions shorter than the "
                 "rank; tags and multi-tags (1-D and 2-D position arrays, the row among others); both stop rules; tag units from "
